@@ -18,18 +18,31 @@ def kind_of(c):
     return m.group(1) if m else c
 
 
-def post_statement_join(P, b):
-    """The block that starts the post-statement test in parse_stmt_block: `at(Eof)` or — the same test spelled as a `match` —
-    a `peek()` other than the statement dispatch's own."""
-    disp_peek = None
+def dispatch_switch(P, b):
+    """The production dispatch of a parser loop: among the switches on the kind returned by `peek()`, the one with the most
+    arms (a loop guard such as `while !matches!(self.peek(), Eol | Eof)` is also a switch on peek(), with two targets)."""
     cfg = P.cfg(b)
+    best = None
     for bb in cfg.rpo():
         t = b.term(bb)
         if t["t"] == "switch":
             d = terms.strip(P.operand_term(b, bb, t["discr"]))
-            if d[0] == "discr" and canon(d[1]) == "Parser::peek(self)" and len(d[1]) > 3:
-                disp_peek = terms.strip(d[1])[3]
-                break
+            if d[0] == "discr" and canon(d[1]) == "Parser::peek(self)":
+                n = len(set(k for _, k in t["targets"]) | {t["otherwise"]})
+                if best is None or n > best[0]:
+                    best = (n, bb)
+    return best[1] if best else None
+
+
+def post_statement_join(P, b):
+    """The block that starts the post-statement test in parse_stmt_block: `at(Eof)` or — the same test spelled as a `match` —
+    a `peek()` other than the statement dispatch's own."""
+    disp_peek = None
+    dsw = dispatch_switch(P, b)
+    if dsw is not None:
+        d = terms.strip(P.operand_term(b, dsw, b.term(dsw)["discr"]))
+        if len(terms.strip(d[1])) > 3:
+            disp_peek = terms.strip(d[1])[3]
     J = [bb for bb, t in b.calls() if callee_name(t)[0] == "parser::Parser::at" and kind_of(canon(P.call_arg_terms(b, bb)[1])) == "Eof"]
     J += [bb for bb, t in b.calls() if callee_name(t)[0] == "parser::Parser::peek" and bb != disp_peek]
     return J
@@ -97,14 +110,7 @@ def arm_traces(P, b, stop_bb):
     """{arm kinds: set(traces)} for Ok paths from the dispatch on peek() to stop_bb."""
     cfg = P.cfg(b)
     # the dispatch: switch on discriminant of Parser::peek(self) nearest to entry (outermost)
-    disp = None
-    for bb in cfg.rpo():
-        t = b.term(bb)
-        if t["t"] == "switch":
-            d = terms.strip(P.operand_term(b, bb, t["discr"]))
-            if d[0] == "discr" and canon(d[1]) == "Parser::peek(self)":
-                disp = bb
-                break
+    disp = dispatch_switch(P, b)
     if disp is None:
         return None, None
     vs = pan._variants_of_discr(b, b.term(disp)["discr"], disp)
@@ -257,14 +263,7 @@ def row_rules(chk, P, L):
         return
     cfg = P.cfg(b)
     # entry productions: traces from the dispatch back to the loop head
-    disp = None
-    for bb in cfg.rpo():
-        t = b.term(bb)
-        if t["t"] == "switch":
-            d = terms.strip(P.operand_term(b, bb, t["discr"]))
-            if d[0] == "discr" and canon(d[1]) == "Parser::peek(self)":
-                disp = bb
-                break
+    disp = dispatch_switch(P, b)
     if not chk.anchor("row dispatch", disp is not None):
         return
     vs = pan._variants_of_discr(b, b.term(disp)["discr"], disp)
